@@ -176,14 +176,50 @@ fn gen_nonempty_string(c: &mut Choices) -> String {
 
 fn gen_locator(c: &mut Choices) -> Locator {
   use std::net::{Ipv4Addr, Ipv6Addr, SocketAddrV4, SocketAddrV6};
-  match c.pick(4) {
-    0 | 1 => Locator::UdpV4(SocketAddrV4::new(Ipv4Addr::new(10, c.byte(), c.byte(), 1 + c.byte() % 250), 7400 + u16::from(c.byte()))),
-    2 => Locator::UdpV6(SocketAddrV6::new(
-      Ipv6Addr::new(0xfe80, 0, 0, 0, u16::from(c.byte()), 1, 2, 3),
-      7400 + u16::from(c.byte()),
-      0,
-      0,
-    )),
+  // ports and addresses from boundary pools as well as arbitrary ones: the wire format carries
+  // any 32-bit port and any 16 address bytes
+  let port = |c: &mut Choices| -> u16 {
+    match c.pick(6) {
+      0 => 0,
+      1 => 1,
+      2 => 65535,
+      3 => 7400 + u16::from(c.byte()),
+      _ => c.u16(),
+    }
+  };
+  match c.pick(6) {
+    0 | 1 => {
+      let a = match c.pick(8) {
+        0 => Ipv4Addr::new(0, 0, 0, 0),
+        1 => Ipv4Addr::new(255, 255, 255, 255),
+        2 => Ipv4Addr::new(127, 0, 0, 1),
+        3 => Ipv4Addr::new(239, 255, 0, 1),
+        4 => Ipv4Addr::new(c.byte(), c.byte(), c.byte(), c.byte()),
+        _ => Ipv4Addr::new(10, c.byte(), c.byte(), 1 + c.byte() % 250),
+      };
+      Locator::UdpV4(SocketAddrV4::new(a, port(c)))
+    }
+    2 | 3 => {
+      let a = match c.pick(6) {
+        0 => Ipv6Addr::UNSPECIFIED,
+        1 => Ipv6Addr::LOCALHOST,
+        2 => Ipv6Addr::new(0xff02, 0, 0, 0, 0, 0, 0, 1),
+        3 => Ipv6Addr::new(c.u16(), c.u16(), c.u16(), c.u16(), c.u16(), c.u16(), c.u16(), c.u16()),
+        // an IPv4-mapped address
+        4 => Ipv6Addr::new(0, 0, 0, 0, 0, 0xffff, c.u16(), c.u16()),
+        _ => Ipv6Addr::new(0xfe80, 0, 0, 0, u16::from(c.byte()), 1, 2, 3),
+      };
+      Locator::UdpV6(SocketAddrV6::new(a, port(c), 0, 0))
+    }
+    4 => match c.pick(3) {
+      0 => Locator::Invalid,
+      1 => Locator::Reserved,
+      _ => Locator::Other {
+        kind: [0x0100_0000i32, 3, 16, -2, i32::MAX][c.pick(5)],
+        port: [0u32, 1, 65535, 65536, u32::MAX][c.pick(5)],
+        address: [if c.bool() { 0u8 } else { 0xff }; 16],
+      },
+    },
     _ => Locator::Other {
       kind: 0x0100_0000 + i32::from(c.byte()),
       port: c.u32(),
